@@ -18,7 +18,7 @@
 EXTENDS Helpers, Json, IOUtils
 
 CONSTANTS TopoFile,      \* ndjson file whose first line is the "topo" event of the pre-pass
-          Masks,         \* bit masks over the PUs (in logical order) used as argument sets
+          Masks,         \* bit masks over the processors the topology knows (PUs in logical order, then ghosts) used as argument sets
           XMasks,        \* masks that are also combined with bits outside the topology / an infinite tail
           DistribNs,     \* values of n for hwloc_distrib
           Light          \* TRUE: fewer combinations for the per-object x per-set products (quick tier)
@@ -32,18 +32,44 @@ vars == <<q, done>>
 PULevel == LevelObjs(T0, T0.depth - 1)
 NPU == Len(PULevel)
 PUOs(k) == O(T0, PULevel[k]).os
-MaxOs == CHOOSE m \in {PUOs(k) : k \in 1..NPU} : \A k \in 1..NPU : PUOs(k) <= m
-MaskSet(m) == {PUOs(k) : k \in {j \in 1..NPU : Bit(m, 2 ^ (j - 1))}}
-\* x = 0: the mask alone; 1: plus one index outside the topology; 2: plus an infinite tail
+PUSet == {PUOs(k) : k \in 1..NPU}
+(* The universe of processor indexes an argument set is drawn from is everything the topology mentions in ANY of its sets,  *)
+(* not only the PUs that have an object: processors that are offline, or disallowed and dropped at load time, appear in the  *)
+(* complete cpusets only ("ghosts": bits NPU+1.. of a mask, in increasing index order).                                      *)
+FiniteR(r) == UNION {IF r[k][2] = -1 THEN {} ELSE r[k][1]..r[k][2] : k \in DOMAIN r}
+RECURSIVE SortSet(_)
+SortSet(X) == IF X = {} THEN <<>> ELSE LET m == CHOOSE x \in X : \A y \in X : x <= y IN <<m>> \o SortSet(X \ {m})
+GhostSet == FiniteR(O(T0, 1).ccs) \ PUSet
+Ghosts == SortSet(GhostSet)
+NBits == NPU + Len(Ghosts)
+BitOs(k) == IF k <= NPU THEN PUOs(k) ELSE Ghosts[k - NPU]
+MaxOs == CHOOSE m \in PUSet \cup GhostSet : \A x \in PUSet \cup GhostSet : x <= m
+MaskSet(m) == {BitOs(k) : k \in {j \in 1..NBits : Bit(m, 2 ^ (j - 1))}}
+\* x = 0: the set alone; 1: plus one index outside the topology; 2: plus an infinite tail
 Extra(x) == CASE x = 0 -> {} [] x = 1 -> {MaxOs + 3} [] x = 2 -> (MaxOs + 2)..BIG
-SetArgs == {<<m, 0>> : m \in Masks} \cup {<<m, x>> : m \in XMasks, x \in {1, 2}}
-ArgSet(a) == MaskSet(a[1]) \cup Extra(a[2])
-FewSetArgs == IF Light THEN {<<m, 0>> : m \in XMasks} ELSE SetArgs
+(* Argument sets named by the topology itself: the cpuset and the complete cpuset of every object (the boundary cases of     *)
+(* every inclusion test), what the complete cpuset adds to it, the allowed and the disallowed processors of the topology and *)
+(* of every object, each ghost alone, with the whole root cpuset and with one PU.                                            *)
+RootCS == OCS(T0, 1)
+AllowedCS == FiniteR(T0.tacs)
+SetsObjs == {i \in Pos(T0) : HasSets(O(T0, i))}
+CCSF(i) == FiniteR(O(T0, i).ccs)
+NamedSets == {RootCS, RootCS \cup GhostSet, GhostSet, AllowedCS, RootCS \ AllowedCS, AllowedCS \cup GhostSet}
+             \cup {{g} : g \in GhostSet} \cup {RootCS \cup {g} : g \in GhostSet} \cup {{PUOs(1), g} : g \in GhostSet}
+             \cup UNION {{OCS(T0, i), CCSF(i), CCSF(i) \ OCS(T0, i), OCS(T0, i) \cap AllowedCS, OCS(T0, i) \ AllowedCS} : i \in SetsObjs}
+\* the named sets where the cpuset, the complete cpuset and the allowed cpuset of the topology differ (none on most topologies)
+OtherSets == IF GhostSet = {} /\ AllowedCS = RootCS THEN {} ELSE {RootCS \cup GhostSet, GhostSet, AllowedCS, RootCS \ AllowedCS}
+\* an argument is <<finite part, x>>
+SetArgs == {<<MaskSet(m), 0>> : m \in Masks} \cup {<<s, 0>> : s \in NamedSets} \cup {<<MaskSet(m), x>> : m \in XMasks, x \in {1, 2}}
+ArgSet(a) == a[1] \cup Extra(a[2])
+FewSetArgs == IF Light THEN {<<MaskSet(m), 0>> : m \in XMasks} \cup {<<s, 0>> : s \in OtherSets} ELSE SetArgs
 
 NumaLevel == LevelObjs(T0, -3)
 NumaOs == {O(T0, NumaLevel[k]).os : k \in DOMAIN NumaLevel}
-MaxNode == CHOOSE m \in NumaOs : \A x \in NumaOs : x <= m
-NodeArgs == SUBSET NumaOs \cup {NumaOs \cup {MaxNode + 2}, {MaxNode + 5}, (MaxNode + 1)..BIG}
+\* same for nodes: the complete nodeset of the root may know nodes that have no object
+NodeU == NumaOs \cup FiniteR(O(T0, 1).cns)
+MaxNode == CHOOSE m \in NodeU : \A x \in NodeU : x <= m
+NodeArgs == SUBSET NodeU \cup {NodeU \cup {MaxNode + 2}, {MaxNode + 5}, (MaxNode + 1)..BIG, FiniteR(T0.tans), NodeU \ FiniteR(T0.tans)}
 
 Objs == Pos(T0)
 SetObjs == {i \in Objs : HasCS(O(T0, i))}
@@ -69,7 +95,7 @@ Init == q = [k |-> "none"] /\ done = FALSE
 \* every action is guarded by ~done BEFORE its quantifier, so that TLC does not enumerate the query space again from each query state
 Fire(d) == done' = TRUE /\ q' = d
 \* descriptors carry the argument set both as (mask, extra) and as the explicit finite part, for the driver
-SetQ(kind, a) == [k |-> kind, s |-> MaskSet(a[1]), x |-> a[2]]
+SetQ(kind, a) == [k |-> kind, s |-> a[1], x |-> a[2]]
 
 QCovering == ~done /\ \E a \in SetArgs : Fire(SetQ("covering", a))
 QCacheCovering == ~done /\ \E a \in SetArgs : Fire(SetQ("cache_covering", a))
@@ -152,6 +178,11 @@ ThmLargest == Is("largest") =>
   /\ (S \subseteq OCS(T0, 1)) => PairwiseDisjoint(T0, MaxSeq) /\ UnionCS(T0, MaxSeq) = S
   /\ LET full == IF S \subseteq OCS(T0, 1) /\ q.max > 0 THEN SubSeq(MaxSeq, 1, IF Len(MaxSeq) < q.max THEN Len(MaxSeq) ELSE q.max) ELSE <<>>
      IN LargestRel(T0, S, q.max, IF S \subseteq OCS(T0, 1) THEN Len(full) ELSE -1, full, 1)
+\* a set that reaches outside the root cpuset - a ghost of the complete cpuset as much as an index beyond the machine - has no
+\* covering object and no decomposition: the only answers the relations admit are NULL and -1
+ThmOutsideRoot == (done /\ q.k \in {"covering", "cache_covering", "largest"} /\ ~(S \subseteq RootCS)) =>
+  IF q.k = "largest" THEN \A r \in -1..N(T0) : LargestRel(T0, S, q.max, r, <<>>, 1) <=> r = -1
+  ELSE \A r \in Cands : (ObjCoveringRel(T0, S, r) \/ CacheCoveringRel(T0, S, r)) <=> r = 0
 ThmFirstLargest == Is("first_largest") => (\E r \in Cands : FirstLargestRel(T0, S, r)) /\ \A r \in Cands \ {0} : FirstLargestRel(T0, S, r) => r \in MaxObjs(T0, S)
 \* the inside objects are among the covering ("touching") ones, both are sub-sequences of the level, complementary sets split the level
 ThmIterators == (Is("inside_depth") \/ Is("covering_depth")) =>
